@@ -31,6 +31,10 @@ type Fault struct {
 	// Flavour (F3, F6): the type of the injected error. "" a plain error; "notfound" / "dup" / "refexists" one of the
 	// library's own error types (a failure must reach the caller whatever its type is)
 	Flavour string `json:"flavour,omitempty"`
+
+	// Must (F3, set by the C07 enumeration): the fault-free execution of this very body produced this event, so the
+	// constraint MUST be consulted for it; a veto that is never asked for is a veto that cannot reach the caller
+	Must bool `json:"must,omitempty"`
 }
 
 var faultFlavours = []string{"", "", "notfound", "dup", "refexists"}
@@ -75,7 +79,7 @@ type Plan struct {
 	Nonce     bool         `json:"nonce,omitempty"` // every write transaction stores a unique commit marker
 	// Schema: order-only variations of the store wiring (the behaviour every property prescribes is the same):
 	// bit 0 the extended child store registers its strategy before the plain one, bit 1 the system-entity constraint
-	// of people is added before its indexes
+	// of people is added before its indexes, bit 2 the base path of the stores is a slice with spare capacity
 	Schema int `json:"schema,omitempty"`
 	Note      string       `json:"note,omitempty"`
 	// filled in when a violation is written out
@@ -141,13 +145,13 @@ type Universe struct {
 }
 
 // Ids and values are disjoint alphabets so that "the id occurs nowhere" is decidable by byte search, with two
-// deliberate exceptions: badge "p2" and note "p3" share their id with a person (state that a constraint keeps per
+// deliberate exceptions: dept "p1", badge "p2" and note "p3" share their id with a person (state that a constraint keeps per
 // id must not leak from one store's entity to another's; sharedId() relaxes the trace search for them). The people
 // and group universes deliberately contain hostile id strings (quote, backslash, filter syntax): C04 quantifies
 // over all id strings.
 var U = Universe{
-	Depts:     []string{"d1", "d2", "d3"},
-	DeptNames: []string{"dn1", "dn2", "dn3"},
+	Depts:     []string{"d1", "d2", "d3", "p1"},
+	DeptNames: []string{"dn1", "dn2", "dn3", "dn4"},
 	People:    []string{"p1", "p2", "p3", "p4", "p1a", `a"b`, `a\b`, `x" or id != "`, `c\nd`, `e\\f`},
 	Names:     []string{"n1", "n2", "n3", "n4", "n5"},
 	Nicks:     []string{"k1", "k2"},
@@ -168,7 +172,7 @@ const nHostilePeople = 5 // (the id before them, p1a, has p1 as a strict prefix)
 // hostile: quote, backslash, filter syntax, backslash + escape letter, double backslash
 
 // sharedId: the id is used by entities of more than one store.
-func sharedId(id string) bool { return id == "p2" || id == "p3" }
+func sharedId(id string) bool { return id == "p1" || id == "p2" || id == "p3" }
 
 func (u Universe) ByStore() map[string][]string {
 	return map[string][]string{StDepts: u.Depts, StPeople: u.People, StStaff: u.People, StPX: u.People, StBadges: u.Badges,
@@ -666,6 +670,8 @@ func (g *gen) genOp() Op {
 	case "commitAction":
 		op.K = "commitAction"
 		op.TxCtx = g.r.IntN(4) == 0
+	case "updateCtx":
+		op.K = "updateCtx"
 	case "listen":
 		// a listener registered while the transaction is in flight (between its operations and its commit)
 		op.K = "listen"
@@ -697,7 +703,7 @@ func (g *gen) f6() Fault {
 	}
 	switch site {
 	case "put":
-		keys = append(keys, "name", "nick", "dept", "mentor", "createdAt", "updatedAt", "isSystem", "owner", "about", "assignee", "topic", "reviewer", "parent", "level", "badgeNo", "memo", "tka", "tkb", "tk3")
+		keys = append(keys, "name", "nick", "alias", "dept", "mentor", "createdAt", "updatedAt", "isSystem", "owner", "about", "assignee", "topic", "reviewer", "parent", "level", "badgeNo", "memo", "tka", "tkb", "tk3")
 		keys = append(keys, U.Names...)
 		keys = append(keys, U.DeptNames...)
 		keys = append(keys, U.BadgeNos...)
@@ -1050,7 +1056,7 @@ func defaultWeights(prop string) map[string]int {
 	case "conc":
 		w = map[string]int{"create": 36, "update": 30, "delete": 12, "link": 16, "rc": 4, "deleteWhere": 2}
 	case "C07", "C08":
-		w = map[string]int{"create": 32, "update": 24, "delete": 16, "link": 10, "rc": 4, "deleteWhere": 2, "preCommit": 5, "commitAction": 7, "listen": 3}
+		w = map[string]int{"create": 32, "update": 24, "delete": 16, "link": 10, "rc": 4, "deleteWhere": 2, "preCommit": 5, "commitAction": 7, "listen": 3, "updateCtx": 3}
 	}
 	return w
 }
@@ -1113,7 +1119,7 @@ func GenPlan(profile, prop string, seed uint64) *Plan {
 		panic("GenPlan: unknown profile " + profile)
 	}
 	g := &gen{r: r, cfg: cfg, shadow: NewModel()}
-	p := &Plan{Profile: profile, Prop: prop, Seed: seed, Listeners: cfg.Listeners, Schema: int(seed>>7) & 3}
+	p := &Plan{Profile: profile, Prop: prop, Seed: seed, Listeners: cfg.Listeners, Schema: int(seed>>7) & 7}
 	if (prop == "C16" || profile == "tx") && r.IntN(14) == 0 {
 		return g.sysBatchPlan(p)
 	}
@@ -1163,7 +1169,7 @@ func genConcurrent(profile, prop string, seed uint64, r *rand.Rand) *Plan {
 	cfg.FaultRate = []float64{0, 0.08}[r.IntN(2)]
 	cfg.Faults = []string{"F1", "F7"}
 	g := &gen{r: r, cfg: cfg, shadow: NewModel()}
-	p := &Plan{Profile: profile, Prop: prop, Seed: seed, Nonce: true, Schema: int(seed>>7) & 3}
+	p := &Plan{Profile: profile, Prop: prop, Seed: seed, Nonce: true, Schema: int(seed>>7) & 7}
 	nw := 1 + r.IntN(2)
 	if profile == "conc" {
 		nw = 1
@@ -1216,7 +1222,7 @@ func genConcurrent(profile, prop string, seed uint64, r *rand.Rand) *Plan {
 			if kind == "file" {
 				// a path of its own, the same path as other snapshots of this run (overwritten), or a DATE / TIME template
 				// (two snapshots within one second of the simulated clock then expand to the same file)
-				snap.Args = []string{pick(r, []string{"unique", "same", "same", "template"})}
+				snap.Args = []string{pick(r, []string{"unique", "same", "same", "template", "nextToDb"})}
 			}
 			return snap
 		}
